@@ -6,6 +6,8 @@ PARTIAL by design: Newton's iteration, the sparse LU solve, convergence and floa
 and are validated per run by the harness; log-variables are outside the model.
 -/
 import IrisVerif.Model.Stacked
+import IrisVerif.Model.StackedGlue
+import IrisVerif.Lemmas.QMatRefines
 import Mathlib.Data.Matrix.Mul
 import Mathlib.Tactic.Abel
 import Mathlib.Tactic.Linarith
@@ -690,5 +692,396 @@ example : stackedFrames 1 4 [true, false, true, false] = [⟨1, 2, 4⟩, ⟨3, 4
 example : periodFrames 5 3 = [⟨5, 5, 5⟩, ⟨6, 6, 6⟩, ⟨7, 7, 7⟩] := by decide
 
 end Ex
+
+section Glue
+open Matrix
+
+/-! ## 9. variants: which model variant simulates which data variant -/
+
+theorem exhaustThenLast_eq {α} (own : List α) (h : own ≠ []) (k : Nat) :
+    exhaustThenLast own k = own[min k (own.length - 1)]? := by
+  unfold exhaustThenLast
+  have hpos : 0 < own.length := List.length_pos_iff.2 h
+  by_cases hk : k < own.length
+  · rw [if_pos hk, Nat.min_eq_left (by omega)]
+  · rw [if_neg hk, Nat.min_eq_right (by omega), List.getLast?_eq_getElem?]
+
+theorem pairVariants_length {M D} (n : Nat) (ms : List M) (ds : List D) : (pairVariants n ms ds).length = n := by
+  simp [pairVariants]
+
+theorem pairVariants_get {M D} (n : Nat) (ms : List M) (ds : List D) (k : Nat) (hk : k < n) :
+    (pairVariants n ms ds)[k]? = some (k, exhaustThenLast ms k, exhaustThenLast ds k) := by
+  simp [pairVariants, hk]
+
+theorem simulateVariants_length {M D O} (sim : M → D → O) (n : Nat) (ms : List M) (ds : List D) :
+    (simulateVariants sim n ms ds).length = n := by
+  simp [simulateVariants, pairVariants]
+
+/-- **Variant locality.** The output has exactly `num_variants` entries, and entry `k` is the simulation of data variant
+`min k (last data variant)` with parameter variant `min k (last model variant)` — nothing else enters it. -/
+theorem simulateVariants_get {M D O} (sim : M → D → O) (n : Nat) (ms : List M) (ds : List D)
+    (hm : ms ≠ []) (hd : ds ≠ []) (k : Nat) (hk : k < n) :
+    (simulateVariants sim n ms ds)[k]? =
+      some (do let m ← ms[min k (ms.length - 1)]?; let d ← ds[min k (ds.length - 1)]?; pure (sim m d)) := by
+  simp only [simulateVariants, List.getElem?_map, pairVariants_get n ms ds k hk, Option.map_some,
+    exhaustThenLast_eq ms hm, exhaustThenLast_eq ds hd]
+
+/-- every requested variant IS simulated when the model and the data have at least one variant -/
+theorem simulateVariants_get_isSome {M D O} (sim : M → D → O) (n : Nat) (ms : List M) (ds : List D)
+    (hm : ms ≠ []) (hd : ds ≠ []) (k : Nat) (hk : k < n) :
+    ∃ o, (simulateVariants sim n ms ds)[k]? = some (some o) := by
+  have h1 : min k (ms.length - 1) < ms.length := by
+    have := List.length_pos_iff.2 hm; omega
+  have h2 : min k (ds.length - 1) < ds.length := by
+    have := List.length_pos_iff.2 hd; omega
+  refine ⟨sim ms[min k (ms.length - 1)] ds[min k (ds.length - 1)], ?_⟩
+  rw [simulateVariants_get sim n ms ds hm hd k hk]
+  simp [List.getElem?_eq_getElem h1, List.getElem?_eq_getElem h2]
+
+/-- the finite zip stops after the shorter side: with fewer model variants than requested, data variants are dropped -/
+theorem pairOwn_length {M D} (n : Nat) (ms : List M) (ds : List D) :
+    (pairOwn n ms ds).length = min n (min ms.length ds.length) := by
+  simp [pairOwn]
+
+/-- a single-variant model over three data variants: the code's pairing serves all three with the one model variant;
+the finite zip would simulate one only (this is seeded change C06-r4-1) -/
+example : pairVariants 3 ["m0"] ["d0", "d1", "d2"] =
+      [(0, some "m0", some "d0"), (1, some "m0", some "d1"), (2, some "m0", some "d2")]
+    ∧ (pairOwn 3 ["m0"] ["d0", "d1", "d2"]).length = 1 := by decide
+
+example : simulateVariants (fun (m d : Nat) => 10 * m + d) 3 [1, 2] [5, 6, 7] = [some 15, some 26, some 27] := by decide
+
+/-! ## 10. histories on model objects: every `simulate` sees the parameters in force -/
+
+theorem Obj.lookup_assign (o : Obj) (q q' : Nat) (v : Rat) :
+    (o.assign q v).lookup q' = if q' = q then some v else o.lookup q' := by
+  unfold Obj.assign Obj.lookup
+  by_cases h : q' = q
+  · subst h; simp
+  · have : (q == q') = false := by simpa using fun h' => h h'.symm
+    simp [this, h]
+
+/-- the heap of objects refines the stateless specification -/
+def Rel (heap : List Obj) (size : Nat) (sp : PSpec) : Prop :=
+  heap.length = size ∧ ∀ i, (heap[i]?).map Obj.lookup = sp i
+
+theorem stepH_refines (P : List Nat) (heap : List Obj) (size : Nat) (sp : PSpec) (h : Rel heap size sp) (op : HOp) :
+    (stepH P heap op).2 = (specStep P size sp op).2.2 ∧
+      Rel (stepH P heap op).1 (specStep P size sp op).1 (specStep P size sp op).2.1 := by
+  obtain ⟨hlen, hrel⟩ := h
+  cases op with
+  | assign i q v =>
+    refine ⟨rfl, by simp [stepH, specStep, hlen], ?_⟩
+    intro j
+    simp only [stepH, specStep, List.getElem?_modify]
+    by_cases hj : j = i
+    · subst hj
+      rw [← hrel j]
+      cases heap[j]? with
+      | none => simp
+      | some o =>
+        have : (o.assign q v).lookup = fun q' => if q' = q then some v else o.lookup q' := by
+          funext q'; exact Obj.lookup_assign o q q' v
+        simp [this]
+    · have : ¬ i = j := fun h' => hj h'.symm
+      rw [if_neg hj, ← hrel j]
+      cases heap[j]? <;> simp [this]
+  | copy i =>
+    simp only [stepH, specStep]
+    have hi := hrel i
+    cases ho : heap[i]? with
+    | none =>
+      rw [ho] at hi
+      simp only [Option.map_none] at hi
+      rw [← hi]
+      exact ⟨rfl, hlen, hrel⟩
+    | some o =>
+      rw [ho] at hi
+      simp only [Option.map_some] at hi
+      rw [← hi]
+      refine ⟨rfl, by simp [hlen], ?_⟩
+      intro j
+      show Option.map Obj.lookup (heap ++ [o])[j]? = if j = size then some o.lookup else sp j
+      by_cases hj : j = size
+      · subst hj
+        simp [← hlen]
+      · rw [if_neg hj, ← hrel j]
+        by_cases hlt : j < heap.length
+        · rw [List.getElem?_append_left hlt]
+        · have : heap.length < j := by omega
+          rw [List.getElem?_eq_none (by simp; omega), List.getElem?_eq_none (by omega)]
+  | simulate i =>
+    refine ⟨?_, hlen, hrel⟩
+    simp only [stepH, specStep]
+    rw [← hrel i]
+    cases heap[i]? <;> simp [overwritesOf]
+
+/-- **Refinement.** For every sequence of `assign` / `copy` / `simulate` operations on a heap of model objects, what each
+`simulate` writes into the parameter rows is the pure function of the parameter values in force for that object at that
+moment (the stateless specification): nothing of an earlier call survives. -/
+theorem runH_refines (P : List Nat) : ∀ (ops : List HOp) (heap : List Obj) (size : Nat) (sp : PSpec),
+    Rel heap size sp → runH P heap ops = runSpec P size sp ops
+  | [], _, _, _, _ => rfl
+  | op :: ops, heap, size, sp, h => by
+    obtain ⟨h1, h2⟩ := stepH_refines P heap size sp h op
+    simp only [runH, runSpec]
+    rw [h1, runH_refines P ops _ _ _ h2]
+
+/-- the specification of a freshly built heap -/
+theorem Rel_init (heap : List Obj) : Rel heap heap.length (fun i => (heap[i]?).map Obj.lookup) := ⟨rfl, fun _ => rfl⟩
+
+/-- simulate, re-assign, simulate again, copy, re-assign the copy: each observation shows the values in force -/
+example : runH [7] [⟨[(7, 1/2)]⟩]
+      [.simulate 0, .assign 0 7 (3/4), .simulate 0, .copy 0, .assign 1 7 2, .simulate 1, .simulate 0] =
+    [some [(7, some (1/2))], none, some [(7, some (3/4))], none, none, some [(7, some 2)], some [(7, some (3/4))]] := by
+  decide +kernel
+
+theorem applyOverwrites_get_param (ow : List (Nat × Option Rat)) (d : Data) (q c : Nat) (v : Rat)
+    (hq : q < d.rows) (hc : c < d.cols) (h : ow.find? (fun p => p.1 == q) = some (q, some v)) :
+    (applyOverwrites ow d).get q (c : Int) = some v := by
+  unfold applyOverwrites
+  rw [Data.get_modify _ _ _ _ hq hc]
+  simp [h]
+
+theorem applyOverwrites_get_other (ow : List (Nat × Option Rat)) (d : Data) (q c : Nat)
+    (hq : q < d.rows) (hc : c < d.cols) (h : ow.find? (fun p => p.1 == q) = none) :
+    (applyOverwrites ow d).get q (c : Int) = d.get q (c : Int) := by
+  unfold applyOverwrites
+  rw [Data.get_modify _ _ _ _ hq hc]
+  simp [h]
+
+/-- **Parameters in force.** On the working array of a `simulate()` call, every column of the row of a parameter the object
+has a value for holds that value: the equations are evaluated with the object's current parameters, whatever the input
+databox or an earlier call put there. -/
+theorem overwrites_in_force (P : List Nat) (o : Obj) (d : Data) (q c : Nat) (v : Rat)
+    (hq : q < d.rows) (hc : c < d.cols) (hP : q ∈ P) (hv : o.lookup q = some v) :
+    (applyOverwrites (overwritesOf P o) d).get q (c : Int) = some v := by
+  apply applyOverwrites_get_param _ _ _ _ _ hq hc
+  unfold overwritesOf
+  induction P with
+  | nil => simp at hP
+  | cons p ps ih =>
+    simp only [List.map_cons, List.find?_cons]
+    by_cases hp : p = q
+    · subst hp; simp [hv]
+    · have : (p == q) = false := by simpa using hp
+      simp only [this]
+      exact ih (by simpa [Ne.symm hp] using hP)
+
+
+/-! ## 11. the terminal condition with log-variables: which cells of the state vector are logarithms -/
+
+section LogTerminal
+variable {K : Type}
+
+/-- with the logarithm taken in EVERY column (the code), every entry of the state vector that belongs to a log-variable —
+current-dated or lagged by 1, 2, 3 … periods — enters the first-order recursion as a logarithm -/
+theorem termXiLog_all_get (lg : K → K) (logly : Nat → Bool) (rd : Nat → Int → K) (toks : List (Nat × Int))
+    (last j : Nat) :
+    (termXiLog lg logly (fun _ => true) rd toks last)[j]? =
+      (toks[j]?).map (fun qs => if logly qs.1 then lg (rd qs.1 ((last : Int) + qs.2)) else rd qs.1 ((last : Int) + qs.2)) := by
+  simp [termXiLog]
+
+/-- taking the logarithm in a window of columns only gives the same state vector **iff** every log-variable entry outside the
+window happens to be a fixed point of `log` — so the window must cover every column the state vector reaches back to -/
+theorem termXiLog_window_iff (lg : K → K) (logly : Nat → Bool) (W : Int → Bool) (rd : Nat → Int → K)
+    (toks : List (Nat × Int)) (last : Nat) :
+    termXiLog lg logly W rd toks last = termXiLog lg logly (fun _ => true) rd toks last ↔
+      ∀ qs ∈ toks, logly qs.1 = true → W ((last : Int) + qs.2) = false →
+        rd qs.1 ((last : Int) + qs.2) = lg (rd qs.1 ((last : Int) + qs.2)) := by
+  unfold termXiLog
+  rw [List.map_inj_left]
+  constructor
+  · intro h qs hqs hl hw
+    have := h qs hqs
+    simpa [hl, hw] using this
+  · intro h qs hqs
+    by_cases hl : logly qs.1 = true
+    · by_cases hw : W ((last : Int) + qs.2) = true
+      · simp [hl, hw]
+      · have hw' : W ((last : Int) + qs.2) = false := by simpa using hw
+        simpa [hl, hw'] using h qs hqs hl hw'
+    · simp [hl]
+
+/-- a cell that is not written comes back unchanged from the `log` / `exp` round trip, when `exp ∘ log` is the identity on the
+values of log-variables (positive reals in the code) -/
+theorem roundTripCell_id (lg ex : K → K) (logly : Nat → Bool) (W : Int → Bool) (pos : K → Prop)
+    (hexp : ∀ x, pos x → ex (lg x) = x) (q : Nat) (c : Int) (x : K) (hx : logly q = true → pos x) :
+    roundTripCell lg ex logly W q c x = x := by
+  unfold roundTripCell
+  by_cases h : (logly q && W c) = true
+  · rw [if_pos h]
+    exact hexp x (hx (by simpa using (Bool.and_eq_true _ _ ▸ h).1))
+  · rw [if_neg h]
+
+/-- a log-variable's terminal cell is the exponential of its row of the continuation, a level variable's is the row itself -/
+theorem termCellLog_logly (ex : K → K) (logly : Nat → Bool) (q : Nat) (xiK : Nat → K) (i : Nat) :
+    termCellLog ex logly q xiK i = if logly q then ex (xiK i) else xiK i := rfl
+
+/-- non-vacuity over ℚ with `log x = x - 1`, `exp y = y + 1`: a log-variable (qid 0) at lag 1 — the window "last column and
+beyond" (seeded change C06-r4-3) reads it unlogged, the code reads its logarithm -/
+example :
+    termXiLog (fun x : ℚ => x - 1) (fun q => q == 0) (fun _ => true) (fun _ c => if c = 4 then 3 else 5) [(0, 0), (0, -1), (1, -1)] 5
+        = [4, 2, 3]
+    ∧ termXiLog (fun x : ℚ => x - 1) (fun q => q == 0) (fun c => decide (5 ≤ c)) (fun _ c => if c = 4 then 3 else 5) [(0, 0), (0, -1), (1, -1)] 5
+        = [4, 3, 3] := by decide +kernel
+
+end LogTerminal
+
+/-! ## 12. the executable terminator (over `QMat`) IS the first-order recursion: refinement through `toMat` -/
+
+theorem cumT_qOps_shape (n : Nat) (T : QMat) (hr : T.rows = n) (hc : T.cols = n) :
+    ∀ k, (cumT (qOps n) T k).rows = n ∧ (cumT (qOps n) T k).cols = n
+  | 0 => ⟨rfl, rfl⟩
+  | k + 1 => ⟨hr, (cumT_qOps_shape n T hr hc k).2⟩
+
+theorem toMat_cumT_qOps (n : Nat) (T : QMat) (hr : T.rows = n) (hc : T.cols = n) :
+    ∀ k, (cumT (qOps n) T k).toMat n n = cumT (matOps (n := Fin n) (K := ℚ)) (T.toMat n n) k
+  | 0 => by simp only [cumT, qOps, matOps]; exact QMat.toMat_identity n
+  | k + 1 => by
+    have ih := toMat_cumT_qOps n T hr hc k
+    have hs := cumT_qOps_shape n T hr hc k
+    show (T * cumT (qOps n) T k).toMat n n = _
+    rw [QMat.toMat_mul T _ n n n hr hc hs.2, ih]
+    rfl
+
+theorem toFn_qOps_addV (n : Nat) (a b : QVec) :
+    QVec.toFn ((qOps n).addV a b) n = QVec.toFn a n + QVec.toFn b n := by
+  funext i
+  simp [qOps, QVec.toFn]
+
+theorem toFn_qOps_zeroV (n : Nat) : QVec.toFn ((qOps n).zeroV) n = 0 := by
+  funext i
+  simp [qOps, QVec.toFn]
+
+theorem toFn_cumK_qOps (n : Nat) (T : QMat) (K : QVec) (hr : T.rows = n) (hc : T.cols = n) :
+    ∀ k, QVec.toFn (cumK (qOps n) T K k) n = cumK (matOps (n := Fin n) (K := ℚ)) (T.toMat n n) (QVec.toFn K n) k
+  | 0 => toFn_qOps_zeroV n
+  | k + 1 => by
+    have ih := toFn_cumK_qOps n T K hr hc k
+    show QVec.toFn ((qOps n).addV (T.mulVec (cumK (qOps n) T K k)) K) n = _
+    rw [toFn_qOps_addV, QMat.toFn_mulVec T _ n n hr hc, ih]
+    rfl
+
+/-- **Refinement of the terminator.** The vector the executable model (exact rationals, `QMat`) writes into terminal column
+`k` is, read through `toFn`/`toMat`, the Mathlib-matrix expression `cum_T^k ξ + cum_K^k` -/
+theorem terminalXi_qOps_refines (n : Nat) (T : QMat) (K x : QVec) (hr : T.rows = n) (hc : T.cols = n) (k : Nat) :
+    QVec.toFn (terminalXi (qOps n) T K x k) n =
+      terminalXi (matOps (n := Fin n) (K := ℚ)) (T.toMat n n) (QVec.toFn K n) (QVec.toFn x n) k := by
+  have hs := cumT_qOps_shape n T hr hc k
+  show QVec.toFn ((qOps n).addV ((cumT (qOps n) T k).mulVec x) (cumK (qOps n) T K k)) n = _
+  rw [toFn_qOps_addV, QMat.toFn_mulVec _ _ n n hs.1 hs.2, toMat_cumT_qOps n T hr hc k, toFn_cumK_qOps n T K hr hc k]
+  rfl
+
+/-- … hence the EXECUTABLE terminal values obey the first-order recursion `ξ_{k+1} = T ξ_k + K` (no ring-law hypothesis on
+`QMat` is left: the laws come from `Matrix` through the refinement) -/
+theorem terminalXi_qOps_succ (n : Nat) (T : QMat) (K x : QVec) (hr : T.rows = n) (hc : T.cols = n) (k : Nat) :
+    QVec.toFn (terminalXi (qOps n) T K x (k + 1)) n =
+      T.toMat n n *ᵥ QVec.toFn (terminalXi (qOps n) T K x k) n + QVec.toFn K n := by
+  rw [terminalXi_qOps_refines n T K x hr hc (k + 1), terminalXi_succ, ← terminalXi_qOps_refines n T K x hr hc k]
+
+theorem terminalXi_qOps_zero (n : Nat) (T : QMat) (K x : QVec) (hr : T.rows = n) (hc : T.cols = n) :
+    QVec.toFn (terminalXi (qOps n) T K x 0) n = QVec.toFn x n := by
+  rw [terminalXi_qOps_refines n T K x hr hc 0, terminalXi_zero]
+
+example : QVec.toFn (terminalXi (qOps 1) (QMat.ofRows [[1/2]]) #[1] #[4] 2) 1 = ![5/2] := by
+  funext i; fin_cases i; decide +kernel
+
+/-! ## 13. the known finding, machine-checked on the model of the current first-order code -/
+
+/-- with the first-order solution the current code computes for `x = 0.5*x{-1} + w + ex` (`T = [1/2]`, `K = [0]`: the
+exogenous variable is in neither), `simulate_flat` returns `x = 0, 0, 0, 0` on the corpus input (`w = 3` in the second period) … -/
+theorem finding_firstOrder_path :
+    findingFordPath (QMat.ofRows [[1/2]]) #[0] = some [some 0, some 0, some 0, some 0] := by decide +kernel
+
+/-- … that path does NOT pass the equation-residual certificate: the second stacked equation is off by `w = 3` … -/
+theorem finding_certificate_fails :
+    findingFordResidual (QMat.ofRows [[1/2]]) #[0] = some [some 0, some 3, some 0, some 0] := by decide +kernel
+
+/-- … while the stacked system has the exact zero `0, 3, 3/2, 3/4` (what stacked_time and period_by_period return): the two
+methods disagree on this linear model, which is the recorded finding. `firstOrder_is_unique_zero` does not apply here
+precisely because its hypothesis `hcert` is false (`finding_certificate_fails`). -/
+theorem finding_stacked_zero :
+    findingSys.solveAffine findingData = some [0, 3, 3/2, 3/4] ∧
+      findingSys.evalFunc (some [0, 3, 3/2, 3/4]) findingData = [some 0, some 0, some 0, some 0] := by decide +kernel
+
+
+/-! ## 14. converse of the exit test, and the composition of the stages of one `simulate_frame` -/
+
+/-- the norm is attained: a positive `‖F‖_∞` is the absolute value of some entry -/
+theorem normInf_attained : ∀ (v : List (Option Rat)) (m : Rat), normInf v = some m → 0 < m →
+    ∃ r, some r ∈ v ∧ absR r = m
+  | [], m, h, hm => by simp [normInf] at h; linarith
+  | none :: _, _, h, _ => by simp [normInf] at h
+  | some y :: rest, m, h, hm => by
+    simp only [normInf, Option.map_eq_some_iff] at h
+    obtain ⟨m', hm', hmm⟩ := h
+    by_cases hlt : m' < absR y
+    · rw [if_pos hlt] at hmm
+      exact ⟨y, by simp, hmm⟩
+    · rw [if_neg hlt] at hmm
+      subst hmm
+      obtain ⟨r, hr, hb⟩ := normInf_attained rest m' hm' hm
+      exact ⟨r, List.mem_cons_of_mem _ hr, hb⟩
+
+/-- **Converse of the exit test.** If the solver's norm is NOT below the tolerance, some transition equation at some simulated
+column is violated by at least the tolerance (the failure is never spurious) -/
+theorem residual_large_some_equation (eqs : List Expr) (cols : List Nat) (d : Data) (m tol : Rat)
+    (hn : normInf (stackedResidual eqs cols d) = some m) (htol : 0 < tol) (hm : tol ≤ m) :
+    ∃ e k, ∃ (he : e < eqs.length) (hk : k < cols.length), ∃ r,
+      (eqs[e]).eval d (cols[k]) = some r ∧ tol ≤ absR r := by
+  obtain ⟨r, hr, hb⟩ := normInf_attained _ _ hn (lt_of_lt_of_le htol hm)
+  obtain ⟨i, hi, hget⟩ := List.getElem_of_mem hr
+  rw [stackedResidual_length] at hi
+  obtain ⟨e, k, he, hk, hent⟩ := stackedResidual_entry_inv eqs cols d hi
+  refine ⟨e, k, he, hk, r, ?_, by rw [hb]; exact hm⟩
+  have : (stackedResidual eqs cols d)[i]? = some (some r) := by
+    rw [List.getElem?_eq_getElem (by rw [stackedResidual_length]; exact hi), hget]
+  rw [this] at hent
+  exact (Option.some.inj hent).symm
+
+example : ∃ m : ℚ, normInf (Ex.exSys.evalFunc (some [1, 1/4]) Ex.exData) = some m ∧ (1/4 : ℚ) ≤ m := by
+  refine ⟨1/2, ?_, by norm_num⟩
+  rw [Ex.ex_eval]; simp [normInf, absR]; norm_num
+
+/-- the array one frame is solved on: the parameter rows overwritten with the object's current values, then `_catch_missing` -/
+def frameArray (s : System) (P : List Nat) (o : Obj) (fb : Rat) (d : Data) : Data :=
+  catchMissing s.spots fb (applyOverwrites (overwritesOf P o) d)
+
+/-- **One frame, end to end** (only input-level hypotheses besides the solver's exit test). If the exit test
+`‖eval_func(guess)‖_∞ < tol` is met on the frame's array, then on the candidate array
+(1) every transition equation at every simulated column is finite and below `tol`;
+(2) every parameter the object has a value for reads that value, at every column up to the end of the frame;
+(3) every other cell that is not solved for, up to the end of the frame, reads the input databox's value (missing if missing). -/
+theorem frame_end_to_end (s : System) (P : List Nat) (o : Obj) (fb : Rat) (d : Data) (g : List Rat) (m tol : Rat)
+    (hn : normInf (s.evalFunc (some g) (frameArray s P o fb d)) = some m) (hm : m < tol) :
+    (∀ e k, ∀ (he : e < s.eqs.length) (hk : k < s.cols.length), ∃ r,
+        (s.eqs[e]).eval (s.candidate (some g) (frameArray s P o fb d)) (s.cols[k]) = some r ∧ absR r < tol) ∧
+    (∀ q c v, q < d.rows → c < d.cols → c ≤ s.simLast → q ∈ P → q ∉ s.endo → o.lookup q = some v →
+        (s.candidate (some g) (frameArray s P o fb d)).get q (c : Int) = some v) ∧
+    (∀ q c, q < d.rows → c < d.cols → c ≤ s.simLast → (q, c) ∉ s.spots →
+        (overwritesOf P o).find? (fun p => p.1 == q) = none →
+        (s.candidate (some g) (frameArray s P o fb d)).get q (c : Int) = d.get q (c : Int)) := by
+  refine ⟨fun e k he hk => System.success_all_equations s (some g) _ m tol hn hm he hk, ?_, ?_⟩
+  · intro q c v hq hc hle hP hendo hv
+    have hns : ∀ c' : Nat, ((c : Int) = (c' : Int)) → (q, c') ∉ s.spots := by
+      intro c' _ hmem
+      exact hendo ((System.mem_spots s q c').1 hmem).1
+    rw [System.candidate_get_input s g _ q c hns (Or.inl (by exact_mod_cast hle))]
+    unfold frameArray
+    rw [catchMissing_get_other _ _ _ _ _ hns]
+    exact overwrites_in_force P o d q c v hq hc hP hv
+  · intro q c hq hc hle hns how
+    have hns' : ∀ c' : Nat, ((c : Int) = (c' : Int)) → (q, c') ∉ s.spots := by
+      intro c' hcc
+      have : c = c' := by exact_mod_cast hcc
+      subst this; exact hns
+    rw [System.candidate_get_input s g _ q c hns' (Or.inl (by exact_mod_cast hle))]
+    unfold frameArray
+    rw [catchMissing_get_other _ _ _ _ _ hns']
+    exact applyOverwrites_get_other _ d q c hq hc how
+
+
+end Glue
 
 end IrisVerif.C06
